@@ -15,9 +15,12 @@ import (
 	"go/token"
 	"go/types"
 	"reflect"
+	"sync"
 	"unsafe"
 
 	"golang.org/x/tools/go/ssa"
+
+	"verif/engine/sym"
 )
 
 type opaqueType struct {
@@ -49,18 +52,50 @@ func makeNamedType(name string, underlying types.Type) *types.Named {
 	return types.NewNamed(obj, underlying, nil)
 }
 
+// A reflect.Value is structure{rtype, value, addr}: addr (a *value) is set for
+// addressable Values, whose current contents are always read through it.
 func makeReflectValue(t types.Type, v value) value {
-	return structure{rtype{t}, v}
+	return structure{rtype{t}, v, (*value)(nil)}
+}
+
+func makeReflectValueAddr(t types.Type, addr *value) value {
+	return structure{rtype{t}, nil, addr}
 }
 
 // Given a reflect.Value, returns its rtype.
 func rV2T(v value) rtype {
-	return v.(structure)[0].(rtype)
+	rt, ok := v.(structure)[0].(rtype)
+	if !ok {
+		panic(targetPanic{iface{t: errorType, v: "reflect: call of method on zero Value"}})
+	}
+	return rt
+}
+
+func rVAddr(v value) *value {
+	s := v.(structure)
+	if len(s) > 2 {
+		if a, ok := s[2].(*value); ok {
+			return a
+		}
+	}
+	return nil
 }
 
 // Given a reflect.Value, returns the underlying interpreter value.
 func rV2V(v value) value {
-	return v.(structure)[1]
+	s := v.(structure)
+	if a := rVAddr(v); a != nil {
+		return load(s[0].(rtype).t, a)
+	}
+	return s[1]
+}
+
+func rVMustAddr(v value, what string) *value {
+	a := rVAddr(v)
+	if a == nil {
+		panic(targetPanic{iface{t: errorType, v: "reflect: " + what + " using unaddressable value"}})
+	}
+	return a
 }
 
 // makeReflectType boxes up an rtype in a reflect.Type interface.
@@ -257,6 +292,9 @@ func ext۰reflect۰Value۰Type(fr *frame, args []value) value {
 
 func ext۰reflect۰Value۰Uint(fr *frame, args []value) value {
 	// Signature: func (reflect.Value) uint64
+	if t, ok := rV2V(args[0]).(*sym.Term); ok {
+		return conv(fr.i, types.Typ[types.Uint64], rV2T(args[0]).t, t)
+	}
 	switch v := rV2V(args[0]).(type) {
 	case uint:
 		return uint64(v)
@@ -363,11 +401,25 @@ func ext۰reflect۰Value۰Index(fr *frame, args []value) value {
 	// Signature: func (v reflect.Value, i int) Value
 	i := args[1].(int)
 	t := rV2T(args[0]).t.Underlying()
+	if a := rVAddr(args[0]); a != nil {
+		if arr, ok := (*a).(array); ok {
+			if i < 0 || i >= len(arr) {
+				panic(targetPanic{iface{t: errorType, v: "reflect: array index out of range"}})
+			}
+			return makeReflectValueAddr(t.(*types.Array).Elem(), &arr[i])
+		}
+	}
 	switch v := rV2V(args[0]).(type) {
 	case array:
+		if i < 0 || i >= len(v) {
+			panic(targetPanic{iface{t: errorType, v: "reflect: array index out of range"}})
+		}
 		return makeReflectValue(t.(*types.Array).Elem(), v[i])
 	case []value:
-		return makeReflectValue(t.(*types.Slice).Elem(), v[i])
+		if i < 0 || i >= len(v) {
+			panic(targetPanic{iface{t: errorType, v: "reflect: slice index out of range"}})
+		}
+		return makeReflectValueAddr(t.(*types.Slice).Elem(), &v[i])
 	default:
 		panic(fmt.Sprintf("reflect.(Value).Index(%T)", v))
 	}
@@ -380,8 +432,51 @@ func ext۰reflect۰Value۰Bool(fr *frame, args []value) value {
 
 func ext۰reflect۰Value۰CanAddr(fr *frame, args []value) value {
 	// Signature: func (v reflect.Value) bool
-	// Always false for our representation.
-	return false
+	return rVAddr(args[0]) != nil
+}
+
+func ext۰reflect۰Value۰Addr(fr *frame, args []value) value {
+	a := rVMustAddr(args[0], "Value.Addr")
+	return makeReflectValue(types.NewPointer(rV2T(args[0]).t), a)
+}
+
+func ext۰reflect۰Value۰SetInt(fr *frame, args []value) value {
+	a := rVMustAddr(args[0], "Value.SetInt")
+	t := rV2T(args[0]).t
+	fr.i.store(t, a, conv(fr.i, t, types.Typ[types.Int64], args[1]))
+	return nil
+}
+
+func ext۰reflect۰Value۰SetUint(fr *frame, args []value) value {
+	a := rVMustAddr(args[0], "Value.SetUint")
+	t := rV2T(args[0]).t
+	fr.i.store(t, a, conv(fr.i, t, types.Typ[types.Uint64], args[1]))
+	return nil
+}
+
+func ext۰reflect۰Value۰SetFloat(fr *frame, args []value) value {
+	a := rVMustAddr(args[0], "Value.SetFloat")
+	t := rV2T(args[0]).t
+	fr.i.store(t, a, conv(fr.i, t, types.Typ[types.Float64], args[1]))
+	return nil
+}
+
+func ext۰reflect۰Value۰SetBool(fr *frame, args []value) value {
+	a := rVMustAddr(args[0], "Value.SetBool")
+	fr.i.store(rV2T(args[0]).t, a, args[1])
+	return nil
+}
+
+func ext۰reflect۰Value۰SetString(fr *frame, args []value) value {
+	a := rVMustAddr(args[0], "Value.SetString")
+	fr.i.store(rV2T(args[0]).t, a, args[1])
+	return nil
+}
+
+func ext۰reflect۰Value۰SetBytes(fr *frame, args []value) value {
+	a := rVMustAddr(args[0], "Value.SetBytes")
+	fr.i.store(rV2T(args[0]).t, a, args[1])
+	return nil
 }
 
 func ext۰reflect۰Value۰CanInterface(fr *frame, args []value) value {
@@ -396,11 +491,11 @@ func ext۰reflect۰Value۰Elem(fr *frame, args []value) value {
 	case iface:
 		return makeReflectValue(x.t, x.v)
 	case *value:
-		var v value
-		if x != nil {
-			v = *x
+		et := rV2T(args[0]).t.Underlying().(*types.Pointer).Elem()
+		if x == nil {
+			return structure{nil, nil, (*value)(nil)} // zero Value
 		}
-		return makeReflectValue(rV2T(args[0]).t.Underlying().(*types.Pointer).Elem(), v)
+		return makeReflectValueAddr(et, x)
 	default:
 		panic(fmt.Sprintf("reflect.(Value).Elem(%T)", x))
 	}
@@ -410,11 +505,18 @@ func ext۰reflect۰Value۰Field(fr *frame, args []value) value {
 	// Signature: func (v reflect.Value, i int) reflect.Value
 	v := args[0]
 	i := args[1].(int)
-	return makeReflectValue(rV2T(v).t.Underlying().(*types.Struct).Field(i).Type(), rV2V(v).(structure)[i])
+	ft := rV2T(v).t.Underlying().(*types.Struct).Field(i).Type()
+	if a := rVAddr(v); a != nil {
+		return makeReflectValueAddr(ft, &(*a).(structure)[i])
+	}
+	return makeReflectValue(ft, rV2V(v).(structure)[i])
 }
 
 func ext۰reflect۰Value۰Float(fr *frame, args []value) value {
 	// Signature: func (reflect.Value) float64
+	if t, ok := rV2V(args[0]).(*sym.Term); ok {
+		return conv(fr.i, types.Typ[types.Float64], rV2T(args[0]).t, t)
+	}
 	switch v := rV2V(args[0]).(type) {
 	case float32:
 		return float64(v)
@@ -431,6 +533,9 @@ func ext۰reflect۰Value۰Interface(fr *frame, args []value) value {
 
 func ext۰reflect۰Value۰Int(fr *frame, args []value) value {
 	// Signature: func (reflect.Value) int64
+	if t, ok := rV2V(args[0]).(*sym.Term); ok {
+		return conv(fr.i, types.Typ[types.Int64], rV2T(args[0]).t, t)
+	}
 	switch x := rV2V(args[0]).(type) {
 	case int:
 		return int64(x)
@@ -473,11 +578,20 @@ func ext۰reflect۰Value۰IsNil(fr *frame, args []value) value {
 
 func ext۰reflect۰Value۰IsValid(fr *frame, args []value) value {
 	// Signature: func (reflect.Value) bool
-	return rV2V(args[0]) != nil
+	_, ok := args[0].(structure)[0].(rtype)
+	return ok
 }
 
 func ext۰reflect۰Value۰Set(fr *frame, args []value) value {
-	// TODO(adonovan): implement.
+	a := rVMustAddr(args[0], "Value.Set")
+	t := rV2T(args[0]).t
+	v := rV2V(args[1])
+	if _, isIface := t.Underlying().(*types.Interface); isIface {
+		if _, already := v.(iface); !already {
+			v = iface{t: rV2T(args[1]).t, v: v}
+		}
+	}
+	fr.i.store(t, a, v)
 	return nil
 }
 
@@ -503,7 +617,14 @@ func newMethod(pkg *ssa.Package, recvType types.Type, name string) *ssa.Function
 	return fn
 }
 
+var (
+	reflectPatchMu sync.Mutex
+	reflectPatched = map[*ssa.Program]bool{}
+)
+
 func initReflect(i *interpreter) {
+	reflectPatchMu.Lock()
+	defer reflectPatchMu.Unlock()
 	i.reflectPackage = &ssa.Package{
 		Prog:    i.prog,
 		Pkg:     reflectTypesPackage,
@@ -524,7 +645,8 @@ func initReflect(i *interpreter) {
 	// One approach would be not to even load its source code, but
 	// provide fake source files.  This would guarantee that no bad
 	// information leaks into other packages.
-	if r := i.prog.ImportedPackage("reflect"); r != nil {
+	if r := i.prog.ImportedPackage("reflect"); r != nil && !reflectPatched[i.prog] {
+		reflectPatched[i.prog] = true
 		rV := r.Pkg.Scope().Lookup("Value").Type().(*types.Named)
 
 		// delete bodies of the old methods
@@ -537,6 +659,7 @@ func initReflect(i *interpreter) {
 		rV.SetUnderlying(types.NewStruct([]*types.Var{
 			types.NewField(token.NoPos, r.Pkg, "t", tEface, false), // a lie
 			types.NewField(token.NoPos, r.Pkg, "v", tEface, false),
+			types.NewField(token.NoPos, r.Pkg, "a", tEface, false),
 		}, nil))
 	}
 
